@@ -113,6 +113,9 @@ class Copy:
             self.optimizer_used = True
         else:
             opt = None
+        if callable(grammar):
+            # grammar(copy) -> {name: Rule}: the public Parser(rules, optimizer=...) constructor
+            return pest.Parser(grammar(self), optimizer=opt)
         return pest.Parser.from_grammar(grammar, optimizer=opt)
 
     def generated(self, parser, name: str = "generated_parser"):
